@@ -272,5 +272,5 @@ pub fn replay(v: &Value) -> Vec<Failure> {
     } else {
         check_roundtrip(&req_from_json(v))
     };
-    fails.into_iter().map(|(signature, detail)| Failure { signature, case: v.clone(), detail }).collect()
+    fails.into_iter().map(|(signature, detail)| Failure { signature, case: v.clone(), detail, hash: 0 }).collect()
 }
